@@ -7,7 +7,7 @@
      NTH <k> <q> : j j j ...      observed std::nth_element result of the brute-force row q (repaired layout)
                                   -> "N <nth_ok_b> | <brute_row_fixed items or ?> | <their dists_sorted>"
      TREE <k> <nnodes>            followed by nnodes lines "n <item> <thr> <hasleft> <hasright>" (preorder dump of
-                                  the REAL VP-tree) -> "T <vp_inv_b> <vp_holds_b> <nitems>" then N lines
+                                  the REAL VP-tree) -> "T <vp_inv_b> <vp_holds_b> <nitems> <vp_shape_b>" then N lines
                                   "S <q> | <vp_search_dists (k+1), farthest first> | <vp_row_fixed k items> | <dists_sorted>"
      CAND <k> <n>                 followed by n lines "<q> : c c c" (candidate list res[q][1..] of the real batch query
                                   called with k+1) -> n lines
@@ -124,7 +124,8 @@ let () =
            let k = nat_of_int (ios k) in
            let nn = nat_of_int !n_cur in
            let t = parse_tree (read_lines (ios nnodes)) in
-           Printf.printf "T %s %s %d\n" (b01 (vp_inv_b dfun t)) (b01 (vp_holds_b nn t)) (List.length (items t));
+           Printf.printf "T %s %s %d %s\n" (b01 (vp_inv_b dfun t)) (b01 (vp_holds_b nn t)) (List.length (items t))
+             (b01 (vp_shape_b dfun t));
            for q = 0 to !n_cur - 1 do
              let zq = z_of_int q in
              let row = vp_row_fixed dfun t zq k in
